@@ -7,6 +7,7 @@ import Driver.Pconc
 import Driver.Abi
 import Driver.Tally
 import Driver.Chain
+import Driver.Valset
 import Driver.Oracle
 import Driver.Claim
 open Driver
@@ -28,6 +29,7 @@ def dispatch (fam : String) : Option (List String → String → Option Res) :=
   | "supplylong" => some runSupply
   | "deposit" => some runDeposit
   | "proposal" => some runProposal
+  | "valsetchain" => some runValsetChain
   | "claim" => some runClaim
   | "oracle" => some runOracle
   | "oracle7" => some runOracle7
